@@ -167,9 +167,22 @@ pub fn generate_with(rng: &mut Rng, pp: &mut ParsedPacket, max_ops: usize, first
             11 | 12 | 13 => {
                 let sec = rng.below(4);
                 let section = [Section::Question, Section::Answer, Section::NameServers, Section::Additional][sec];
-                let text: Vec<u8> = match rng.below(8) {
+                // (the interpreter is four orders of magnitude slower: no 8 KiB texts there)
+                let text: Vec<u8> = match if cfg!(miri) { rng.below(8) } else { rng.below(10) } {
                     0 => damaged_text(rng).0.into_bytes(),
                     1 => vec![b'a', 0xff, 0xfe, b' ', b'1'], // not UTF-8
+                    8 => {
+                        // record text far longer than a packet: every TXT byte written as a decimal escape
+                        let n = rng.range(2050, 2400);
+                        let body: String = (0..n).map(|i| format!("\\{:03}", 65 + (i % 26))).collect();
+                        format!("long.example. 60 IN TXT \"{}\"", body).into_bytes()
+                    }
+                    9 => {
+                        // more than one line: whatever the native call makes of it, the table must do the same
+                        let first = valid_text(rng, None).text;
+                        let second = if rng.chance(1, 2) { valid_text(rng, None).text } else { damaged_text(rng).0 };
+                        format!("{}{}{}", first, rng.pick(&["\n", "\r\n", "\n\n"]), second).into_bytes()
+                    }
                     _ => valid_text(rng, None).text.into_bytes(),
                 };
                 let text: Vec<u8> = text.into_iter().filter(|&c| c != 0).collect();
@@ -205,9 +218,9 @@ pub fn generate_with(rng: &mut Rng, pp: &mut ParsedPacket, max_ops: usize, first
                     1 => len.saturating_sub(1),
                     2 => len + 1,
                     3 => 8192,
-                    4 => *rng.pick(&[512usize, 4096, 65535, 65536, 65537, 70000, 131072, 1 << 20]),
+                    4 => *rng.pick(if cfg!(miri) { &[512usize, 4096, 65535, 65536, 65537, 70000][..] } else { &[512usize, 4096, 65535, 65536, 65537, 70000, 131072, 1 << 20][..] }),
                     5 => 65536 + len.saturating_sub(1), // low 16 bits just below the packet length
-                    6 => 65536 * rng.range(1, 4) + rng.below(len + 2),
+                    6 => 65536 * if cfg!(miri) { 1 } else { rng.range(1, 4) } + rng.below(len + 2),
                     _ => rng.below(8193),
                 };
                 s.u8(9);
